@@ -38,6 +38,11 @@ type ruleT struct {
 	Itv   uint32  `json:"itv"`
 	Assoc bool    `json:"assoc,omitempty"`
 	Ref   int     `json:"ref,omitempty"`
+	// Kind (prologue siblings only): 0 = Direct+Reject like the case's own rules; 1 = Direct+Throttling,
+	// 2 = MemoryAdaptive+Throttling, 3 = WarmUp+Throttling - predecessors of another strategy on the
+	// same resource / relation / interval, whose (empty or absent) statistics must not weaken the
+	// Reject rule loaded over them. Derived from the case id: no PRNG draw.
+	Kind int `json:"kind,omitempty"`
 }
 
 type opT struct {
@@ -191,6 +196,9 @@ func genSeq(r *rng.R, id int) seqCase {
 					p.Thr += 1000.5
 				}
 				p.ThrS = fstr(p.Thr)
+				if (id+i+j)%2 == 1 {
+					p.Kind = 1 + (id/2+j)%3
+				}
 				ps = append(ps, p)
 			}
 			c.Prologue = append(c.Prologue, ps)
@@ -307,6 +315,17 @@ func mkRules(id int, rules [][]ruleT) []*flow.Rule {
 			if x.Assoc {
 				fr.RelationStrategy = flow.AssociatedResource
 				fr.RefResource = resName(id, x.Ref)
+			}
+			switch x.Kind {
+			case 1:
+				fr.ControlBehavior, fr.MaxQueueingTimeMs = flow.Throttling, 10
+			case 2:
+				fr.TokenCalculateStrategy, fr.ControlBehavior, fr.MaxQueueingTimeMs = flow.MemoryAdaptive, flow.Throttling, 10
+				fr.LowMemUsageThreshold, fr.HighMemUsageThreshold = 1000, 100
+				fr.MemLowWaterMarkBytes, fr.MemHighWaterMarkBytes = 1024, 2048
+			case 3:
+				fr.TokenCalculateStrategy, fr.ControlBehavior, fr.MaxQueueingTimeMs = flow.WarmUp, flow.Throttling, 10
+				fr.WarmUpPeriodSec, fr.WarmUpColdFactor = 10, 3
 			}
 			out = append(out, fr)
 		}
@@ -1196,7 +1215,7 @@ func main() {
 	clk.Install()
 	root := rng.New(a.Seed)
 	rep := emit.NewReport("C02", a.Seed, a.Tier)
-	rep.Rule = "sequential: 1-3 resources, 0-3 reject/direct rules each (thresholds 0, fractional, small, large, invalid, Inf, NaN; StatIntervalInMs 0,1000,2000,2500,250,300,750,20000,1500,3000,500,5000,10000,1,7; associated-resource rules), 8-45 Entry/Exit operations under the virtual clock with time steps 0, small, to bucket/window boundaries -1/0/+1, whole windows, idle gaps longer than the 10 s array; concurrent: k=2-4 goroutines parked at the chain yield between rule check and statistics, random interleavings with clock ticks; rules go in through flow.LoadRules or, per resource in a random order, flow.LoadRulesOfResource; reload: in a share of the cases sibling rules are loaded just before the case's rules (statistic reuse), incl. several rules of one resource on the same independent interval; reset: the first request after whole idle array cycles is stepped through the yields of the bucket reset (110-113, 104) while other requests run their rule check against a slot holding up to T tokens from exactly one cycle earlier. Non-trivial = at least one admission, one rejection and one 500 ms bucket boundary crossed (sequential) / at least two requests simultaneously inside the admission path (concurrent); distinct by full input."
+	rep.Rule = "sequential: 1-3 resources, 0-3 reject/direct rules each (thresholds 0, fractional, small, large, invalid, Inf, NaN; StatIntervalInMs 0,1000,2000,2500,250,300,750,20000,1500,3000,500,5000,10000,1,7; associated-resource rules), 8-45 Entry/Exit operations under the virtual clock with time steps 0, small, to bucket/window boundaries -1/0/+1, whole windows, idle gaps longer than the 10 s array; concurrent: k=2-4 goroutines parked at the chain yield between rule check and statistics, random interleavings with clock ticks; rules go in through flow.LoadRules or, per resource in a random order, flow.LoadRulesOfResource; reload: in a share of the cases sibling rules are loaded just before the case's rules (statistic reuse), incl. several rules of one resource on the same independent interval, and - every second sibling - predecessors of another strategy (Direct+Throttling, MemoryAdaptive+Throttling, WarmUp+Throttling) on the same resource / relation / interval; reset: the first request after whole idle array cycles is stepped through the yields of the bucket reset (110-113, 104) while other requests run their rule check against a slot holding up to T tokens from exactly one cycle earlier. Non-trivial = at least one admission, one rejection and one 500 ms bucket boundary crossed (sequential) / at least two requests simultaneously inside the admission path (concurrent); distinct by full input."
 	nSeqCorr := a.Pick(a.N, 150, 3000)
 	nConcCorr := a.Pick(a.N, 40, 800)
 	nSeqMon := a.Pick(a.Mon, 3000, 60000)
